@@ -734,6 +734,76 @@ func init() {
 			}
 		}
 	}
+	// ... also when the encoding has exactly the size of a (power-of-two) scratch buffer, or one byte less / more
+	for _, prop := range []string{"C09", "C10", "C12"} {
+		prop := prop
+		Scenarios[strings.ToLower(prop)+".returned-bytes-exact-size"] = func() (choice.Scenario, func() any) {
+			return func(c *choice.Ctx) {
+				target := []int{256, 512, 1024, 2048, 4096, 8192, 65536}[c.Choose("size", 7)] + c.Choose("offset", 3) - 1
+				kind := c.Choose("profile", 3)
+				entry := c.Choose("entry", 3)
+				enc := func(x psatoken.IClaims) ([]byte, string, error) {
+					switch {
+					case prop == "C12":
+						b, err := psatoken.EncodeClaimsToJSON(x)
+						return b, "EncodeClaimsToJSON", err
+					case entry == 0:
+						b, err := psatoken.EncodeClaimsToCBOR(x)
+						return b, "EncodeClaimsToCBOR", err
+					case entry == 1:
+						b, err := psatoken.ValidateAndEncodeClaimsToCBOR(x)
+						return b, "ValidateAndEncodeClaimsToCBOR", err
+					}
+					if m, ok := x.(interface{ MarshalCBOR() ([]byte, error) }); ok {
+						b, err := m.MarshalCBOR()
+						return b, "MarshalCBOR", err
+					}
+					return nil, "", errNotRepresentable
+				}
+				a := genValidOpt(&choice.Ctx{}, kind, false, true)
+				a.VSI = sp("")
+				x, err := buildBySetters(a)
+				if err != nil {
+					return
+				}
+				base, name, err := enc(x)
+				if err != nil || len(base) >= target {
+					return
+				}
+				// lengthen the verification-service indicator until the encoding has the wanted size (its head grows too)
+				var got []byte
+				for pad := target - len(base) - 4; pad <= target-len(base)+4 && pad >= 0; pad++ {
+					if x.SetVSI(strings.Repeat("v", pad)) != nil {
+						continue
+					}
+					if b, _, e := enc(x); e == nil && len(b) == target {
+						got = b
+						break
+					}
+				}
+				if got == nil {
+					return
+				}
+				kept := append([]byte{}, got...)
+				encStats.StateStr(fmt.Sprint("exact-size", prop, target, kind, entry))
+				encStats.Trans.Add(1)
+				// other claims-sets of other, of the same and of neighbouring sizes are encoded afterwards
+				for _, pad := range []int{0, 1, target / 2, len(*a.VSI), target, target * 2} {
+					o := genValidOpt(&choice.Ctx{}, (kind+1)%3, false, true)
+					o.VSI = sp(strings.Repeat("w", pad))
+					if y, e := buildBySetters(o); e == nil {
+						_, _, _ = enc(y)
+						_, _ = psatoken.EncodeClaimsToJSON(y)
+					}
+				}
+				_ = x.SetVSI(strings.Repeat("u", 7))
+				_, _, _ = enc(x)
+				if !bytes.Equal(got, kept) {
+					c.Failf(fmt.Sprintf("%s:returned-bytes-change:%s:size-%d", prop, name, target), "a %d-byte encoding returned by %s changed when other claims-sets were encoded afterwards", target, name)
+				}
+			}, nil
+		}
+	}
 	// returned encodings are stable values: encoding other claims-sets afterwards must not change bytes handed out earlier
 	for _, prop := range []string{"C09", "C10", "C12"} {
 		prop := prop
@@ -1132,6 +1202,7 @@ func init() {
 				rb = 3
 			}
 			exploreChoiceOpts(r, lp+".returned-bytes", rb, dl, 1)
+			exploreChoiceOpts(r, lp+".returned-bytes-exact-size", -1, dl, 1)
 			if prop == "C12" {
 				exploreChoiceOpts(r, "c12.after-prior-calls", 2, dl, 1)
 				exploreChoiceOpts(r, "c12.escaped-profile-name", 2, dl, 1)
